@@ -333,11 +333,15 @@ class World:
         ca, kw, fresh = act
         m = self.model
         if ca[0] == "delete":
-            (self.cache_dir / "output" / f"{ca[1]}.out").unlink()
+            (self.cache_dir / "output" / f"{ca[1]}.out").unlink(missing_ok=True)
             del m.cache[ca[1]]
         elif ca[0] == "corrupt":
             p = self.cache_dir / "output" / f"{ca[1]}.out"
-            data = p.read_bytes()
+            # (an implementation that does not keep the outputs of failed runs leaves nothing to corrupt)
+            data = p.read_bytes() if p.is_file() else None
+            if data is None:
+                del m.cache[ca[1]]
+                return self._apply_rest(kw, fresh)
             if ca[2] == "truncate":
                 p.write_bytes(data[: len(data) // 2])
             elif ca[2] == "empty":
@@ -349,6 +353,10 @@ class World:
             else:
                 raise HarnessError(ca)
             m.cache[ca[1]] = None
+        self._apply_rest(kw, fresh)
+
+    def _apply_rest(self, kw, fresh):
+        m = self.model
         if kw:
             m.tag = TAGS[1 - TAGS.index(m.tag)]
         if fresh:
@@ -375,9 +383,28 @@ class World:
             _forget(d)
 
     # ---- one jobmap run + oracle
-    def run(self, case):
-        """Returns True when the run agrees with the model (the model is advanced)."""
-        ctx = self.ctx
+    def expect(self, k, un):
+        """(allowed numbers of executions of unit un of key k in the next run, reason)."""
+        m = self.model
+        if k in m.dest:
+            return (0,), "key-already-in-destination"
+        rec = m.cache.get(un)
+        if un not in m.cache:
+            reason = "no-cached-output"
+        elif rec is None:
+            reason = "cached-output-unreadable"
+        elif rec[0] != m.tag:
+            reason = "cached-output-of-different-input"
+        elif not rec[1]:
+            reason = "cached-output-of-failed-run"
+        else:
+            reason = None
+        if reason is None and not rec[2]:
+            return (0, 1), None  # commands exited 0 but the requested file was missing: see assumptions
+        return ((0,), None) if reason is None else ((1,), reason)
+
+    def execute(self, case):
+        """The real jobmap call.  Returns (exception or None, where, executions per unit, scratch residue)."""
         m = self.model
         kind = self.kind
         PLAN.clear()
@@ -426,15 +453,23 @@ class World:
             _release(dest)
         after = self.read_attempts()
         executed = {un: after[un] - before[un] for un in after}
-        ctx.count(transitions=1 + sum(executed.values()))
         residue = sorted(p.name for p in (self.w / "scratch").iterdir())
+        return exc, where, executed, residue
+
+    def run(self, case):
+        """Returns True when the run agrees with the model (the model is advanced)."""
+        ctx = self.ctx
+        m = self.model
+        kind = self.kind
+        exc, where, executed, residue = self.execute(case)
+        ctx.count(transitions=1 + sum(executed.values()))
 
         def viol(sig, what):
-            ctx.violation(sig, what, case, repro=REPROS.get(sig))
+            ctx.violation(sig, what, case, repro=repro_for(sig))
 
         if exc is not None:
             viol(
-                f"jobmap:exception-escapes:{type(exc).__name__}@{where}",
+                f"jobmap:exception-escapes[{'destination-only-key' if FOREIGN in m.dest else 'no-destination-only-key'}]:{type(exc).__name__}@{where}",
                 f"jobmap raised {type(exc).__name__}: {str(exc)[:80]} (foreign key in destination: {FOREIGN in m.dest}; cached outputs: {sorted(m.cache)})",
             )
             return False
@@ -448,29 +483,12 @@ class World:
             for u in self.units[k]:
                 un = unit_name(u)
                 got = executed[un]
+                allowed, reason = self.expect(k, un)
                 if k in m.dest:
                     if got != 0:
                         viol(f"jobmap[{kind}]:executed-again:key-already-in-destination", f"unit {un} executed {got}x although {k} is in the destination")
                         ok = False
                     continue
-                rec = m.cache.get(un)
-                if un not in m.cache:
-                    reason = "no-cached-output"
-                elif rec is None:
-                    reason = "cached-output-unreadable"
-                elif rec[0] != m.tag:
-                    reason = "cached-output-of-different-input"
-                elif not rec[1]:
-                    reason = "cached-output-of-failed-run"
-                else:
-                    reason = None
-                ambiguous = reason is None and not rec[2]  # commands exited 0 but the requested file was missing
-                if ambiguous:
-                    allowed = (0, 1)
-                elif reason is None:
-                    allowed = (0,)
-                else:
-                    allowed = (1,)
                 if got not in allowed:
                     if got > max(allowed):
                         viol(
@@ -504,6 +522,7 @@ class World:
                 outcome_class[k] = "return-file-missing"
             else:
                 outcome_class[k] = "failed"
+        self.expected_dest = newdest
         try:
             real = self.read_dest()
         except Exception as e:
@@ -590,7 +609,6 @@ def _forget(coll):
     atexit.unregister(coll._backend.flush)
 
 
-REPROS = {}
 _REPRO_HEAD = """\
 import os, tempfile
 import molli as ml
@@ -611,7 +629,43 @@ class D(DriverBase):
         return b"|".join(outs)
 d = tempfile.mkdtemp(); os.chdir(d)
 mol = ml.Molecule(name="k0"); mol.add_atom(ml.Atom("C"), [0.0, 0.0, 0.0])
+src = ml.MoleculeLibrary("src.mlib", readonly=False)
+with src.writing(): src["k0"] = mol
+ens = ml.ConformerLibrary("src.clib", readonly=False)
+with ens.writing(): ens["k0"] = ml.ConformerEnsemble(mol, n_conformers=2)
+dst = Collection("dst.ukv", UkvCollectionBackend, readonly=False)
 """
+
+_REPRO_TAILS = {
+    "KeyError@'obj = source[k]'": """\
+with dst.writing(): dst["only-in-destination"] = b"x"
+jobmap(D().calc, src, dst, cache_dir="cache", scratch_dir="scratch", n_workers=1)
+# KeyError: b'only-in-destination'  (job.py:551 `all_keys ^ skip_keys` puts destination-only keys into to_be_done)
+""",
+    "jobmap[single]:destination:item-stored-although-failed-after-writing-the-file": """\
+jobmap(D().calc, src, dst, cache_dir="cache", scratch_dir="scratch", n_workers=1, kwargs={"fail": True})
+with dst.reading(): print(dict(dst.items()))
+# {'k0': b'data\\n'} although the second command of k0 exited 3; expected: {}  (job.py:664 processes <key>.out whatever its exit code)
+""",
+    "jobmap[vector]:destination:item-stored-although-failed-after-writing-the-file": """\
+jobmap(D().calc_ens, ens, dst, cache_dir="cache", scratch_dir="scratch", n_workers=1, kwargs={"fail": True})
+with dst.reading(): print(dict(dst.items()))
+# {'k0': b'data\\n|data\\n'} although every conformer job failed; expected: {}  (job.py:679)
+""",
+    "AttributeError@'not strict_hash or _out.input_hash == _input.hash'": """\
+jobmap(D().calc_ens, ens, dst, cache_dir="cache", scratch_dir="scratch", n_workers=1, kwargs={"fail": True})   # leaves k0.0.out, k0.1.out in the cache
+dst2 = Collection("dst2.ukv", UkvCollectionBackend, readonly=False)
+jobmap(D().calc_ens, ens, dst2, cache_dir="cache", scratch_dir="scratch", n_workers=1, kwargs={"fail": True})
+# AttributeError: 'generator' object has no attribute 'hash'  (job.py:612 compares with _input.hash instead of _inp.hash)
+""",
+}
+
+
+def repro_for(sig):
+    for k, t in _REPRO_TAILS.items():
+        if k in sig:
+            return _REPRO_HEAD + t
+    return None
 
 
 # -------------------------------------------------------------------------------------------------
@@ -623,14 +677,12 @@ def rot(lst, seed):
     return lst[r:] + lst[:r]
 
 
-def configs(kind, keys, scripts, unit_plans, seed):
-    """Every initial configuration: per key either 'already in the destination' or a plan for its units;
-    x foreign key present or not."""
-    per_key = ["DEST"] + list(unit_plans)
+def configs(kind, keys, unit_plans):
+    """Every initial configuration: per key either 'already in the destination' or a plan for its units
+    (unit_plans: one list of plans for all keys, or a dict key -> list); x foreign key present or not."""
+    per_key = [["DEST"] + list(unit_plans[k] if isinstance(unit_plans, dict) else unit_plans) for k in keys]
     out = []
-    for combo in itertools.product(per_key, repeat=len(keys)):
-        if all(c == "DEST" for c in combo) and len(keys) > 1:
-            pass  # everything already done: still a legitimate (trivial) configuration
+    for combo in itertools.product(*per_key):
         for foreign in (False, True):
             plan = {}
             prepop = []
@@ -650,7 +702,7 @@ def explore(ctx, cfg, depth, corrupt_kinds, real_runner=False, seen=None):
     root.mkdir(parents=True, exist_ok=True)
     world = World(ctx, cfg, root, real_runner=real_runner)
     world.setup()
-    seen = set() if seen is None else seen
+    seen = {} if seen is None else seen
     nruns = 0
 
     def node(hist, level):
@@ -661,7 +713,7 @@ def explore(ctx, cfg, depth, corrupt_kinds, real_runner=False, seen=None):
         ctx.count(evaluations=1, traces=1)
         if not ok:
             return
-        key = (level, world.model.canon())
+        key = world.model.canon()
         m = world.model
         c = (cfg["kind"], tuple(sorted((k, tuple(v)) for k, v in cfg["plan"].items())), tuple(cfg["prepop"]), cfg["foreign"], m.canon())
         ctx.state_keys.add(hashlib.blake2b(repr(c).encode(), digest_size=10).digest())
@@ -672,9 +724,10 @@ def explore(ctx, cfg, depth, corrupt_kinds, real_runner=False, seen=None):
             ctx.sample({"cfg": cfg, "history": [_jsonable_act(a) for a in hist], "executed": dict(world.last_obs[0]), "destination": {k: v for k, v in world.last_obs[1]}})
         if level >= depth:
             return
-        if key in seen:
+        # a state already expanded with at least as many runs left needs no second expansion
+        if seen.get(key, depth + 1) <= level:
             return
-        seen.add(key)
+        seen[key] = level
         snap = world.save(f"L{level}")
         for act in world.actions(corrupt_kinds):
             world.restore(snap)
@@ -705,18 +758,8 @@ def chunk(lst, n):
     return [c for c in out if c]
 
 
-def plans_for(kind, scripts, reduced):
-    if kind == "single":
-        return [(s,) for s in scripts]
-    if reduced:
-        # one conformer carries the script, the other one succeeds; both positions
-        out = []
-        for s in scripts:
-            for p in ((s, "S"), ("S", s)):
-                if p not in out:
-                    out.append(p)
-        return out
-    return list(itertools.product(scripts, repeat=2))
+# vectorised plans of the quick tier: each scripted outcome once, on either conformer
+VEC5 = [("S", "S"), ("F", "S"), ("S", "FS"), ("O", "S"), ("S", "W")]
 
 
 def run(ctx):
@@ -724,6 +767,9 @@ def run(ctx):
     repo = os.environ.get("VERIF_REPO", "/repo")
     os.environ["PYTHONPATH"] = repo + (os.pathsep + os.environ["PYTHONPATH"] if os.environ.get("PYTHONPATH") else "")
     scripts = rot(SCRIPTS, seed)
+    single = [(x,) for x in scripts]
+    vec5 = rot(VEC5, seed)
+    vec25 = list(itertools.product(scripts, repeat=2))
     ctx.rule = (
         "every history of 1..depth jobmap runs from every initial configuration (per key: already in the destination, or a "
         "scripted outcome per unit from {S,F,FS,O,W}; foreign key or not; single / vectorised job), steps = cache action x kwargs "
@@ -739,40 +785,29 @@ def run(ctx):
     ]
     parts = []
     nproc = 16 if ctx.thorough else 8
+    k2, k3 = ["k0", "k1"], ["k0", "k1", "k2"]
+    T = ["truncate"]
     if not ctx.thorough:
-        keys = ["k0", "k1"]
-        c1 = configs("single", keys, scripts, plans_for("single", scripts, False), seed)
-        c2 = configs("vector", keys, scripts, plans_for("vector", scripts, True), seed)
-        ck = ["truncate"]
-        parts += [(2, ck, False, c) for c in chunk(c1, nproc)]
-        parts += [(2, ck, False, c) for c in chunk(c2, nproc * 3)]
-        ctx.bound.update({"items": 2, "runs": "1..2", "vector_plans": "one scripted conformer, the other succeeds (both positions)", "corrupt_kinds": ck})
+        parts += [(2, T, False, c) for c in chunk(configs("single", k2, single), nproc * 2)]
+        parts += [(2, T, False, c) for c in chunk(configs("vector", k2, vec5), nproc * 3)]
+        ctx.bound.update({"items": 2, "runs": "1..2", "vector_plans": [list(p) for p in VEC5], "corrupt_kinds": T})
     else:
-        ck = ["truncate", "empty", "garbage", "scalar"]
-        k2, k3 = ["k0", "k1"], ["k0", "k1", "k2"]
-        # depth 3, 2 items
-        c = configs("single", k2, scripts, plans_for("single", scripts, False), seed)
-        parts += [(3, ["truncate"], False, x) for x in chunk(c, nproc * 2)]
-        c = configs("vector", k2, scripts, plans_for("vector", scripts, True), seed)
-        parts += [(3, ["truncate"], False, x) for x in chunk(c, nproc * 6)]
-        # depth 2, full per-conformer plans, all corruption kinds
-        c = configs("vector", k2, scripts, plans_for("vector", scripts, False), seed)
-        parts += [(2, ck, False, x) for x in chunk(c, nproc * 6)]
-        # depth 2, 3 items
-        c = configs("single", k3, scripts, plans_for("single", scripts, False), seed)
-        parts += [(2, ck, False, x) for x in chunk(c, nproc * 4)]
-        c = configs("vector", k3, scripts, plans_for("vector", scripts, True), seed)
-        parts += [(2, ["truncate"], False, x) for x in chunk(c, nproc * 8)]
-        # conformance with the unmodified subprocess runner
-        c = configs("single", k2, scripts, plans_for("single", scripts, False), seed)
-        parts += [(2, ["truncate"], True, x) for x in chunk(c, nproc * 4)]
-        c = configs("vector", k2, scripts, [("S", "S"), ("S", "W"), ("FS", "S"), ("O", "S"), ("S", "F")], seed)
-        parts += [(2, ["truncate"], True, x) for x in chunk(c, nproc * 4)]
+        CK = ["truncate", "empty", "garbage", "scalar"]
+        # 1..3 runs, 2 items
+        parts += [(3, T, False, x) for x in chunk(configs("single", k2, single), nproc * 2)]
+        parts += [(3, T, False, x) for x in chunk(configs("vector", k2, vec5), nproc * 4)]
+        # 1..2 runs: every per-conformer plan pair on k0; 3 items; all corruption kinds
+        parts += [(2, CK, False, x) for x in chunk(configs("vector", k2, {"k0": vec25, "k1": vec5}), nproc * 4)]
+        parts += [(2, CK, False, x) for x in chunk(configs("single", k3, single), nproc * 4)]
+        parts += [(2, T, False, x) for x in chunk(configs("vector", k3, vec5), nproc * 4)]
+        # conformance: the same histories through the unmodified subprocess runner (_molli_run)
+        parts += [(2, T, True, x) for x in chunk(configs("single", k2, single), 72)]
+        parts += [(1, T, True, x) for x in chunk(configs("vector", k2, vec5), 36)]
         ctx.bound.update(
             {
-                "depth3": "2 items, single + vectorised (one scripted conformer)",
-                "depth2": "3 items single/vectorised; 2 items with all 25 per-conformer plans; 4 corruption kinds",
-                "real_subprocess_runner": "depth 2, 2 items, single (all) + vectorised (5 plans)",
+                "runs_1..3": "2 items: single (5 scripts), vectorised (5 plans)",
+                "runs_1..2": "2 items vectorised with all 25 per-conformer plans on k0, 4 corruption kinds; 3 items single (4 corruption kinds) and vectorised",
+                "real_subprocess_runner": "2 items: single 1..2 runs (all), vectorised 1 run (all)",
             }
         )
     # slow parts first
